@@ -303,6 +303,7 @@ def auto(check, prog):
     check.require(ok2, 'Q3-auto-equals-explicit', 'interpret_theory classes',
                   'a theory class is instantiated with no arguments (the same '
                   'construction the default-theory table uses)', loc)
+    model_default_theory(check, prog)
     # no memoised state anywhere on the calc_* paths
     c01.f5_state(check, prog)
     # DDA probe failure -> DependencyMissing
@@ -315,6 +316,59 @@ def auto(check, prog):
     check.require(ok, 'Q3-dda-missing-dependency', 'DDA.__init__',
                   'a failing `adda -V` probe raises DependencyMissing',
                   prog.loc(q, prog.func(q)))
+
+
+def model_default_theory(check, prog):
+    """Q3 for models: a model that is given no theory resolves the default theory
+    with the same table -- which looks at radii and separations -- so it must be
+    resolved on a scatterer that carries the values, not on the model's template
+    in which every value has been replaced by a placeholder."""
+    MQ = 'holopy.inference.model.Model'
+    q = MQ + '.__init__'
+    fd = prog.func(q)
+    loc = prog.loc(q, fd)
+    it = Interp(prog, max_depth=1, inline_new=False, opaque=[
+        I + 'interpret_theory', MQ + '._create_dummy_scatterer'])
+    it.analyze(q)
+    calls = [c for c in it.calls if c['name'] == I + 'interpret_theory']
+    check.need('interpret_theory calls in Model.__init__', len(calls), 1,
+               'Q3-model-default-theory', 'Model.__init__ resolves the theory',
+               'the theory argument (a name, a class, an instance or \'auto\') is '
+               'resolved at construction', loc)
+    if not calls:
+        return
+    from .common import call_args
+    arg = call_args(prog, calls[0]).get('scatterer')
+    through_template = arg is not None and any(
+        x[0] == 'call' and (x[1] == MQ + '._create_dummy_scatterer' or (
+            isinstance(x[1], tuple) and x[1][0] == 'attr' and
+            x[1][2] == '_create_dummy_scatterer')) for x in subterms(arg))
+    placeholder = False
+    if through_template:
+        qd = MQ + '._create_dummy_scatterer'
+        itd = Interp(prog, max_depth=1, inline_new=False)
+        itd.analyze(qd)
+        stores = [e for e in itd.effects if e['kind'] == 'setitem']
+        # every stored value is a literal (or a list of literals): the values of
+        # the user's scatterer do not reach the template
+        def literal(t):
+            if t[0] in ('num', 'const'):
+                return True
+            if t[0] in ('list', 'tuple'):
+                return all(literal(x) for x in t[1])
+            if t[0] == 'comp':
+                return literal(t[2])
+            return False
+        placeholder = bool(stores) and all(literal(e['value']) for e in stores)
+    check.require(not placeholder, 'Q3-model-default-theory', 'Model.__init__',
+                  'the default theory of a model is chosen on a scatterer that has '
+                  'the radii and positions the table looks at', loc,
+                  fail_detail='Model.__init__ resolves theory=\'auto\' on '
+                  '_create_dummy_scatterer(scatterer), in which every value is 0: '
+                  'the 30-radius rule sees zero separation, so a model of two '
+                  'spheres 40 radii apart computes with Multisphere where '
+                  'calc_holo(theory=\'auto\') on the same spheres uses Mie '
+                  'superposition (holograms 9.7 % apart)')
 
 
 def cscat_interpolation(check, prog):
